@@ -1394,7 +1394,9 @@ impl ContinuityStreamCache {
         continuity_id: &str,
     ) -> io::Result<Option<PathBuf>> {
         let mr_path = self.messages_runs_path_for_v1(continuity_id);
-        if mr_path.exists() {
+        // A zero-length file holds no frame: it is a lost sidecar, not the history of a thread
+        // without messages (the writers never create an empty file).
+        if derived_sidecar_holds_data(&mr_path) {
             return Ok(Some(mr_path));
         }
 
@@ -1409,7 +1411,7 @@ impl ContinuityStreamCache {
             &full_path,
             &mr_path,
         )?;
-        if mr_path.exists() {
+        if derived_sidecar_holds_data(&mr_path) {
             Ok(Some(mr_path))
         } else {
             Ok(None)
@@ -1421,7 +1423,8 @@ impl ContinuityStreamCache {
         continuity_id: &str,
     ) -> io::Result<Option<PathBuf>> {
         let path = self.compaction_checkpoints_path_for_v1(continuity_id);
-        if path.exists() {
+        // See ensure_messages_runs_sidecar_best_effort_v1: a zero-length file is a lost sidecar.
+        if derived_sidecar_holds_data(&path) {
             return Ok(Some(path));
         }
 
@@ -1435,7 +1438,7 @@ impl ContinuityStreamCache {
             &full_path,
             &path,
         )?;
-        if path.exists() {
+        if derived_sidecar_holds_data(&path) {
             Ok(Some(path))
         } else {
             Ok(None)
@@ -1832,6 +1835,14 @@ fn rebuild_messages_runs_seek_index_best_effort_v1(
         let _ = fs::remove_file(tmp);
     }
     Ok(())
+}
+
+/// Whether a derived sidecar (messages+runs, compaction checkpoints) exists and holds at least one
+/// byte. The writers append whole records and the rebuilds rename a non-empty temporary file into
+/// place, so an empty file is never the projection of a thread: it is what is left of a truncated
+/// one, and reading it as "this thread has no such frames" would change answers.
+fn derived_sidecar_holds_data(path: &Path) -> bool {
+    fs::metadata(path).map(|meta| meta.len() > 0).unwrap_or(false)
 }
 
 #[derive(Debug)]
